@@ -163,7 +163,13 @@ fn expected(rule: Rule, root: &GTree, start: &[usize]) -> (Option<GTree>, Vec<Ve
 
 /// The whitespace-like characters of the property: four XML ones, then Unicode spaces that are
 /// not XML whitespace.
-pub const WS_LIKE: &[char] = &[' ', '\t', '\r', '\n', '\u{a0}', '\u{2003}', '\u{3000}', '\u{2028}', '\u{85}', '\u{1680}'];
+pub const WS_LIKE: &[char] = &[
+    ' ', '\t', '\r', '\n', '\u{a0}', '\u{2003}', '\u{3000}', '\u{2028}', '\u{85}', '\u{1680}',
+    // characters whose code point ENDS in the byte of an XML whitespace character (a narrowing cast or a
+    // byte-wise test takes them for one: seed C18f): U+0420, U+0120, U+2020, U+0409, U+2009, U+040A,
+    // U+200A, U+010D, U+200D
+    '\u{420}', '\u{120}', '\u{2020}', '\u{409}', '\u{2009}', '\u{40a}', '\u{200a}', '\u{10d}', '\u{200d}',
+];
 
 const SPACE_VALUES: &[&str] = &["preserve", "default", "other", "", "Preserve", " preserve", "preserve ", "PRESERVE"];
 
